@@ -164,6 +164,8 @@ Definition run_action (a : action) (w : world) : world :=
       if negb (w_conn w) then noconn w else upd_log (w_hd w) (s2t "= hd")
   | ASetBroker m => upd_log (upd_broker w m) (s2t "= broker")
   | ASetPid p =>
+      (* the hook needs &mut Session: it is only applied while no connection handle borrows the session *)
+      if w_conn w then upd_log w (s2t "= pid") else
       let p16 := p mod 65536 in
       upd_log (upd_sess w (set_pid (w_sess w) (if N.eqb p16 0 then 1 else p16))) (s2t "= pid")
   end.
